@@ -3,9 +3,9 @@ From Coq Require Extraction ExtrOcamlBasic ExtrOcamlString.
 From Coq Require Import List Arith.
 Require Import TT.Model.Str TT.Model.C08Fingerprint TT.Model.C08Run.
 
-(* a scripted history from the empty output directory; presence = false is the faithful model *)
+(* a scripted history from the empty output directory; presence = true is the faithful model (outputs_present in both callers) *)
 Definition c08_trace (p : project) (c : config) (h : list hstep) : list hobs :=
-  trace false (init_state p c, None) h.
+  trace true (init_state p c, None) h.
 (* partition test: do two (schedule, project, configuration) triples have the same fingerprint? *)
 Definition c08_fp_eq (w1 : sched) (p1 : project) (c1 : config) (w2 : sched) (p2 : project) (c2 : config) : bool :=
   tree_eqb (fp w1 p1 c1) (fp w2 p2 c2).
